@@ -376,7 +376,8 @@ fn format_volume(dev: &SparseDev, spec: &J, vals: &mut Vals, rule: &mut DefaultR
         bs[36..40].copy_from_slice(&fat_len.to_le_bytes());
         bs[44..48].copy_from_slice(&root_clus.to_le_bytes());
         bs[48..50].copy_from_slice(&(fsinfo as u16).to_le_bytes());
-        bs[50..52].copy_from_slice(&6u16.to_le_bytes());
+        let bk: u16 = if resv > 6 && fsinfo != 6 { 6 } else { 0 }; // backup boot sector, when there is room for it
+        bs[50..52].copy_from_slice(&bk.to_le_bytes());
         bs[64] = 0x80;
         bs[66] = 0x29;
         bs[67..71].copy_from_slice(&0x1234_5678u32.to_le_bytes());
@@ -478,7 +479,9 @@ fn format_volume(dev: &SparseDev, spec: &J, vals: &mut Vals, rule: &mut DefaultR
         is[508..512].copy_from_slice(&0xAA55_0000u32.to_le_bytes());
         f.put(g.info_blk, &is);
         // backup boot sector
-        f.put(lba + 6, &bs);
+        if resv > 6 && fsinfo != 6 {
+            f.put(lba + 6, &bs);
+        }
     }
     g
 }
